@@ -22,6 +22,16 @@
 (* deposit carried by a Conway certificate / proposal is well formed, i.e.   *)
 (* equal to the parameter (the DELEG/GOVCERT/GOV rules enforce that, not the *)
 (* balance equation).                                                        *)
+(*                                                                           *)
+(* The phase-2 flag.  From Alonzo on a transaction carries is_valid; a       *)
+(* transaction flagged is_valid = false (its Plutus scripts fail) is still   *)
+(* put into a block and only its collateral is collected.  consumed =        *)
+(* produced is a precondition of the UTXO rule that the ledger applies       *)
+(* BEFORE it branches on the flag (only UTXOS reads it: Alonzo spec fig. 9,  *)
+(* Babbage/Conway utxoTransition "validateValueNotConservedUTxO" is          *)
+(* unconditional), so the verdict below never reads the field p2 and the     *)
+(* flagged copy of every case carries the verdict of its unflagged twin      *)
+(* (FlagIrrelevant, FlagTwin).                                               *)
 EXTENDS Integers, Sequences, FiniteSets, SequencesExt, Json, TLC
 
 CONSTANTS
@@ -29,13 +39,21 @@ CONSTANTS
     Seed,          \* VERIF_SEED: selects the sample of the grid
     MaxCerts,      \* certificate multisets of size 0..MaxCerts
     PerBagLegacy,  \* sampled base transactions per certificate multiset (Shelley..Babbage)
-    PerBagGov      \* the same for Conway, Dijkstra
+    PerBagGov,     \* the same for Conway, Dijkstra
+    FlagEvery      \* one base transaction in FlagEvery is also emitted flagged is_valid = false (1 = all)
 
 AllEras == <<"shelley", "allegra", "mary", "alonzo", "babbage", "conway", "dijkstra">>
 EraIdx(e) == CHOOSE i \in 1..Len(AllEras) : AllEras[i] = e
 
 HasAssets(e) == e \notin {"shelley", "allegra"}          \* Mary onwards: multi-asset values, mint
 HasGov(e)    == e \in {"conway", "dijkstra"}             \* Conway onwards: DReps, proposals, donation
+\* Alonzo onwards: the transaction has the is_valid flag.  Alonzo, Babbage and Conway
+\* carry it in the transaction's own encoding (4-element envelope).  A Dijkstra
+\* transaction has a 3-element envelope that cannot say is_valid = false; there the
+\* block lists the indices of its invalid transactions, and the rules see the flag of
+\* a transaction taken from a block only.
+HasFlag(e)    == e \in {"alonzo", "babbage", "conway", "dijkstra"}
+FlagOnWire(e) == e \in {"alonzo", "babbage", "conway"}
 
 ----------------------------------------------------------------------------
 (* Certificates.  A pool registration names pool "A" or "B" (not registered  *)
@@ -144,6 +162,7 @@ Base(e, bag, j, l) ==
          bag   |-> bag,
          j     |-> j,
          var   |-> "free",
+         p2    |-> FALSE,          \* is_valid = false?  (Accept never reads it)
          certs |-> [i \in 1..Len(bag) |-> Kinds(e)[bag[i]]],
          pp    |-> [ key  |-> 1 + Rnd(l, 8, 3),
                      pool |-> 1 + Rnd(l, 9, 3),
@@ -213,8 +232,17 @@ Variants(e, bag, j) ==
     IN {b, bb, Tweak(bb, w)}
        \cup (IF HasAssets(e) THEN {Merge(bb, Merges[1 + Rnd(l, 71, Len(Merges))])} ELSE {})
 
+\* The phase-2 flag is one more coordinate of the case space: the base transactions
+\* picked by the hash (all of them when FlagEvery = 1) are emitted a second time, in
+\* every variant, flagged is_valid = false.
+Flag(t) == [t EXCEPT !.p2 = TRUE]
+FlagPicked(e, bag, j) == HasFlag(e) /\ Rnd(Lanes(e, bag, j), 72, FlagEvery) = 0
+WithFlag(e, bag, j) ==
+    LET vs == Variants(e, bag, j)
+    IN IF FlagPicked(e, bag, j) THEN vs \cup {Flag(t) : t \in vs} ELSE vs
+
 Cases ==
-    UNION { UNION { Variants(e, bag, j) : bag \in CertBags(Len(Kinds(e))), j \in 1..PerBag(e) } : e \in Eras }
+    UNION { UNION { WithFlag(e, bag, j) : bag \in CertBags(Len(Kinds(e))), j \in 1..PerBag(e) } : e \in Eras }
 
 ----------------------------------------------------------------------------
 VARIABLE c
@@ -288,9 +316,27 @@ Signs ==
     /\ ConsumedCoin(c) >= 0 /\ ProducedCoin(c) >= 0
     /\ \A x \in {"a", "b"} : ProducedAsset(c, x) >= 0 /\ (ConsumedAsset(c, x) < 0 => ~Accept(c))
 
+\* the phase-2 flag never changes the verdict, nor either side of the equation
+FlagIrrelevant ==
+    LET d == [c EXCEPT !.p2 = ~c.p2] IN
+    /\ Accept(c) <=> Accept(d)
+    /\ ConsumedCoin(c) = ConsumedCoin(d) /\ ProducedCoin(c) = ProducedCoin(d)
+    /\ \A x \in {"a", "b"} : ConsumedAsset(c, x) = ConsumedAsset(d, x) /\ ProducedAsset(c, x) = ProducedAsset(d, x)
+
+\* the flag is a coordinate of its own: every flagged case is the copy of an unflagged
+\* case of the same run (so each flagged verdict is paired with the unflagged one on the
+\* same amounts), only eras that have the flag are flagged, and with FlagEvery = 1 the
+\* case space of such an era is the full product with {FALSE, TRUE}
+FlagTwin ==
+    LET here == WithFlag(c.era, c.bag, c.j)      \* the cases at c's coordinates (Cases is their union)
+    IN /\ c \in here
+       /\ c.p2 => HasFlag(c.era) /\ [c EXCEPT !.p2 = FALSE] \in here
+       /\ (FlagEvery = 1 /\ HasFlag(c.era)) => [c EXCEPT !.p2 = ~c.p2] \in here
+
 \* the generator respects the era's feature set and the grid bounds
 EraShape ==
     /\ c.era \in Eras
+    /\ c.p2 \in BOOLEAN /\ (c.p2 => HasFlag(c.era))
     /\ Range(c.certs) \subseteq Range(Kinds(c.era))
     /\ Len(c.certs) <= MaxCerts
     /\ Len(c.ins) \in 1..3 /\ Len(c.outs) \in 0..4 /\ Len(c.wds) \in 0..3
@@ -306,11 +352,15 @@ ASSUME KeyRegKinds \cup KeyDeregKinds \cup NewPoolKinds \cup NeutralKinds \cup {
          = Range(GovKinds) \cup Range(LegacyKinds)
 ASSUME Range(LegacyKinds) \ {"genesis_deleg"} \subseteq Range(GovKinds)
 ASSUME Len(GovKinds) < 17 /\ Eras \subseteq Range(AllEras)
+ASSUME FlagEvery \in Nat \ {0}
+ASSUME \A e \in Range(AllEras) : (FlagOnWire(e) => HasFlag(e)) /\ (HasFlag(e) => HasAssets(e))
 ASSUME \A x \in 0..50 : Rnd(<<Lane1(x, 1, 2), Lane2(x, 1, 2)>>, x, 4) \in 0..3
 
 Row(t) == [ era |-> t.era, bag |-> t.bag, j |-> t.j, var |-> t.var, certs |-> t.certs, pp |-> t.pp,
             ins |-> t.ins, outs |-> t.outs, fee |-> t.fee, wds |-> t.wds, mint |-> t.mint, mintb |-> t.mintb,
             don |-> t.don, nprop |-> t.nprop,
+            p2 |-> t.p2,                                  \* build the transaction with is_valid = false
+            p2wire |-> t.p2 /\ FlagOnWire(t.era),         \* ... and the flag survives the transaction's encoding
             accept |-> Accept(t),
             cc |-> ConsumedCoin(t), pc |-> ProducedCoin(t),
             ca |-> ConsumedAsset(t, "a"), pa |-> ProducedAsset(t, "a"),
